@@ -491,7 +491,8 @@ class Caller(object):
                   {rt.Routes(t.draw(6)), rt.Routes(8)}]
         table = []
         for k in keys[:n]:
-            src = {None} if t.draw(2) else {rt.Routes(t.draw(6))}
+            src = [{None}, {rt.Routes(t.draw(6))}, set(),
+                   {rt.Routes(t.draw(6)), None}][t.draw_small(4, 0.6)]
             mask = ((1 << bits) - 1) & ~t.draw_small(1 << bits, 0.5)
             table.append(rt.RoutingTableEntry(
                 set(routes[t.draw(3)]), k & mask, mask | 0xffffff00, src))
@@ -696,7 +697,8 @@ class Caller(object):
                   {rt.Routes(t.draw(6)), rt.Routes(8)}]
         table = []
         for k in keys[:n]:
-            src = {None} if t.draw(2) else {rt.Routes(t.draw(6))}
+            src = [{None}, {rt.Routes(t.draw(6))}, set(),
+                   {rt.Routes(t.draw(6)), None}][t.draw_small(4, 0.6)]
             table.append(rt.RoutingTableEntry(routes[t.draw(3)], k,
                                               (1 << bits) - 1 | 0xffffff00,
                                               src))
